@@ -379,9 +379,9 @@ SPEC = {
     'partial_note': 'PROVED: for all documents -- offsets_exact (sound + complete), startxref_exact, 20-byte entries, sectioning of the '
                     'cross-reference table and stream; on the property domain -- per-object round trip incl. streams at the recorded '
                     'offset, header, binary mark, get_xref_start, trailer, cross-reference table parse-back, and the MAIN THEOREM for the '
-                    'TABLE format: load (save_table d) = reloaded_table d (first cycle).  NOT proved: the cross-reference STREAM format '
-                    '(missing: xstream_content read back through decode_xref_plain, then the same composition) and the second cycle as '
-                    'a theorem (savable (reloaded d)); both are covered by correspondence + direct evaluation on the crate only.  '
+                    'TABLE format: load (save_table d) = reloaded_table d, and the second cycle (reloaded document in the domain again, '
+                    'objects idempotent).  NOT proved: the cross-reference STREAM format (missing: xstream_content read back through '
+                    'decode_xref_plain, then the same composition); it is covered by correspondence + direct evaluation on the crate only.  '
                     'Open known finding: container nesting deeper than MAX_BRACKET is not reloaded (price of the repair 61b571d).',
 }
 
@@ -389,8 +389,8 @@ MANIFEST = {
     'level_note': 'rung 1 complete for ALL documents (offsets_exact sound+complete, startxref_exact, entry and section shape); rung 2 complete at '
                   'file level (C14 object_rt lifted to indirect objects and streams, found at the recorded offset; header, binary mark, '
                   'get_xref_start, trailer, cross-reference table parse-back); rung 3 PARTIAL: C01_roundtrip_table = load (save_table d) = '
-                  'reloaded_table d for every savable document outside the known class (first cycle, table format) is proved; the '
-                  'cross-reference stream format and the second cycle are stated in C01_full and NOT proved -- they are tied by '
+                  'reloaded_table d for every savable document outside the known class and C01_again_table (second cycle) are proved for the '
+                  'table format; the cross-reference stream format is stated in C01_full and NOT proved -- it is tied by '
                   'byte-for-byte save correspondence, loader correspondence on saved and mutated files, and direct save->load->compare '
                   '(two cycles, both formats, default and no-default-features) on the crate',
     'known_findings': ['C01-deep-nesting (open)'],
